@@ -228,6 +228,7 @@ class TracingInterpreter(BytecodeInterpreter):
         self.codes: dict[FuncDef, TracedCode] = {}
         self._stack: list[Activation] = []
         self._cur: list | None = None
+        self._last: Activation | None = None
         self.roots: list[Activation] = []
         self.keep_roots = False
         self.max_events = max_events
